@@ -1,6 +1,6 @@
 """C10 — stale or undecodable stored traces are skipped, never fatal.
 Engine E1+E4 (differential): stores populated directly with rows = every subset of valid rows x every subset (size <= 2,
-thorough <= 3) of 20 stale-row kinds x insertion orders, commands stub / stub -v / stub <qualname specifier> / apply;
+thorough <= 3) of 28 stale-row kinds x insertion orders, commands stub / stub -v / stub <qualname specifier> / apply;
 oracle: output equals the output obtained from the decodable rows alone, exit status 0, skipped rows counted exactly."""
 from __future__ import annotations
 
@@ -20,7 +20,7 @@ from mcheck.core.runner import VERIF, Ctx, Result, Violation
 
 ID = "C10"
 RULE = (
-    "rows = every subset of 4 valid rows x every subset of size 0..2 (thorough 0..3) of 20 stale kinds (module removed, "
+    "rows = every subset of 4 valid rows x every subset of size 0..2 (thorough 0..3) of 28 stale kinds (module removed, "
     "submodule removed, parent not a package, function removed / now int / class / settable property / property without "
     "getter / local scope, argument / return / yield class removed, class name bound to int / dict / None / instance, "
     "nested in generics and TypedDict fields, unknown parameter names) x 3 insertion orders x commands {stub, stub -v, "
@@ -61,6 +61,10 @@ STALE: Dict[str, Tuple[Tuple, bool, Optional[Tuple]]] = {
     "module-removed": (row("stale_fx.gone", "f", {"a": INT}, INT), False, None),
     "submodule-removed": (row("stale_fx.sub.gone", "f", {"a": INT}, INT), False, None),
     "parent-not-package": (row("stale_fx.mod.inner", "f", {"a": INT}, INT), False, None),
+    "intermediate-package-removed": (row("stale_fx.gone.models", "f", {"a": INT}, INT), False, None),
+    "arg-class-intermediate-package-removed": (row(M, "good2", {"a": T("stale_fx.gone.models", "C"), "b": STR}, STR), False, None),
+    "arg-class-local-scope-with-module-level-namesake": (row(M, "good1", {"a": T(M, "outer.<locals>.Arg")}, INT), False, None),
+    "return-class-local-scope-with-module-level-namesake": (row(M, "Cls.meth", {"self": T(M, "Cls"), "x": INT}, T(M, "outer.<locals>.Ret")), False, None),
     "function-removed": (row(M, "removed_func", {"a": INT}, INT), False, None),
     "method-removed": (row(M, "Cls.removed", {"a": INT}, INT), False, None),
     "class-removed-method": (row(M, "GoneCls.meth", {"a": INT}, INT), False, None),
@@ -85,7 +89,7 @@ STALE: Dict[str, Tuple[Tuple, bool, Optional[Tuple]]] = {
 }
 KINDS = list(STALE)
 
-TARGETS = {"stale_fx.gone": "module-removed", "stale_fx.sub.gone": "submodule-removed", "stale_fx.mod.inner": "parent-not-package"}
+TARGETS = {"stale_fx.gone.models": "intermediate-package-removed", "stale_fx.gone": "module-removed", "stale_fx.sub.gone": "submodule-removed", "stale_fx.mod.inner": "parent-not-package"}
 
 
 def populate(db: str, rows: List[Tuple]) -> None:
